@@ -3,6 +3,7 @@ are looked up lazily so that a missing rule module is an analysis error of that 
 
 from .rules import countflow as cf
 from .rules import loops as lp
+from .rules import batch as bt
 
 NOT_BEHAVIOUR = 'decides the listed structural clauses (necessary conditions); does not decide the behaviour itself'
 
@@ -27,7 +28,7 @@ prop('C09',
       '"elected never exceed seats" for simultaneous quota elections (arithmetic)'])
 
 prop('C01',
-     [('R01', cf.r01_total_sweep), ('R02', cf.r02_elect_sites), ('R04', lp.r04_loops), ('R05', cf.r05_status_ownership)],
+     [('R01', cf.r01_total_sweep), ('R02', cf.r02_elect_sites), ('R03', bt.r03_batch_cap), ('R04', lp.r04_loops), ('R05', cf.r05_status_ownership)],
      'Static analysis of /repo source over the count() of every registered rule class. ' + NOT_BEHAVIOUR,
      ['when count() returns nobody is hopeful (R01)', 'nobody elected without quota or seat guard (R02)',
       'only hopefuls/pendings are elected or defeated; withdrawn never (R05)'],
